@@ -175,6 +175,7 @@ func driveRVesting(t *testing.T, in, out string, seed int64) {
 				}
 				gs[rvestingtypes.ModuleName] = a.AppCodec().MustMarshalJSON(g)
 			}})
+		RoundTripAtEnd("rvesting", bi, map[string]*Chain{"host": c})
 		// set-up (not under test): install the behaviour's initial parameters
 		en, rw := rvParamsFromModel(init["params"].(M))
 		var coins sdk.Coins
